@@ -102,6 +102,13 @@ Definition step_C15 (c : pcase) (_ : unit) (prev : snapshot) (e : event) (o : li
             end
         | None => (length fwd =? 0)%nat
         end
+    | EvBmca =>
+        (* a clock that has just become grandmaster (no slave port, some master port)
+           has no parent: the path received from the former parent is forgotten, its
+           Announces carry its own identity only (16.2.3) *)
+        forallb (fun x => match snd x with AForwardTLV _ _ => false | _ => true end) o
+        && (if forallb (fun s => negb (s =? 9)) (sn_states sn) && existsb (fun s => s =? 6) (sn_states sn)
+            then (length (ds_path (sn_ds sn)) =? 0)%nat else true)
     | _ => forallb (fun x => match snd x with AForwardTLV _ _ => false | _ => true end) o
     end in
   if ok then Some tt else None.
